@@ -55,8 +55,30 @@ def _patterns(n):
     yield 'pos', bytes(((i % 16) << 4 | (i // 16) & 0xf) for i in range(n))
 
 
+class ImplRaised(Exception):
+    pass
+
+
+def _guard(name, fn):
+    def g(*a, **kw):
+        try:
+            return fn(*a, **kw)
+        except Exception as e:      # the functions under test must accept every input of the stated domain
+            raise ImplRaised('%s raised %s: %s' % (name, type(e).__name__, e))
+    return g
+
+
 def eval_case(case):
-    from pel.hexdump import hexdump, parse
+    try:
+        return _eval_case(case)
+    except ImplRaised as e:
+        return [{'key': 'C13:raised', 'what': '%s (case %s)' % (e, {k: (v if len(str(v)) < 60 else str(v)[:60] + '...') for k, v in case.items()}),
+                 'case': case}]
+
+
+def _eval_case(case):
+    import pel.hexdump as _hd
+    hexdump, parse = _guard('hexdump()', _hd.hexdump), _guard('parse()', _hd.parse)
     k = case['k']
     out = []
 
